@@ -224,4 +224,5 @@ def run_sympify_pair_contract(integrate_raises=False):
                  ensures=ensures, setup=setup, region=_rs_region, raises=lambda S, a, e: z3.BoolVal(False),
                  globals_={"sqrt": lambda e, s: VFn(z3.Const("sympy_symbols.sqrt", Fn)), "x": lambda e, s: VFn(z3.Const("sympy_symbols.x", Fn))})
     c.region_name = "pair handed back (%s)" % ("sympy.integrate raises" if integrate_raises else "sympy.integrate returns")
+    c.live_ins = ("eq",)
     return c
